@@ -24,7 +24,10 @@ RewriteFaithful == T.kind = "body" /\ NoPanic /\ T.rewritten => T.rewout = T.out
 LiteralOK    == T.kind = "literal" /\ NoPanic => T.out1 = T.s
 \* ... also next to another literal and surrounding text: scanner and lexer agree where things end
 NeighbourOK  == T.kind = "literal" /\ NoPanic => T.out2 = T.exp2
-InvC12 == /\ Check("C12.BodyFaithful", BodyFaithful) /\ Check("C12.RewriteFaithful", RewriteFaithful) /\ Check("C12.LiteralOK", LiteralOK)
+\* ... and wherever the literal stands in an expression (operand, argument, item, property, branch), also once the
+\* expression has been re-printed from its tree
+PositionOK   == T.kind = "literal" /\ NoPanic => T.posbad = ""
+InvC12 == /\ Check("C12.PositionOK", PositionOK) /\ Check("C12.BodyFaithful", BodyFaithful) /\ Check("C12.RewriteFaithful", RewriteFaithful) /\ Check("C12.LiteralOK", LiteralOK)
           /\ Check("C12.NeighbourOK", NeighbourOK) /\ Check("C12.NoPanic", NoPanic)
 Accepted == TLCGet("stats").diameter = Len(Trace)
 =============================================================================
